@@ -28,6 +28,16 @@ fn cases(_rng: &mut Rng, sink: &mut dyn FnMut(J) -> bool) {
             }
         }
     }
+    // repeated equal containers, decoys on (and off): every digest of the credential distinct
+    for strategy in ["NoSD", "TopLevel", "CustomParents", "AllLevels"] {
+        for decoys in [true, false] {
+            n += 1;
+            let alg = ["ES256", "EdDSA", "HS256"][n % 3];
+            if !sink(json!({"threads": 1, "per_thread": 2, "reuse_issuer": n % 2 == 0, "same_claims": true, "decoys": decoys, "format": if n % 2 == 0 { "compact" } else { "json" }, "claims_kind": "repeated_equal", "strategy": strategy, "alg": alg})) {
+                return;
+            }
+        }
+    }
     // claim names outside ASCII (BMP and beyond)
     for strategy in ["AllLevels", "TopLevel"] {
         n += 1;
@@ -91,6 +101,7 @@ fn worker(t: usize, per_thread: usize, reuse: bool, same_claims: bool, decoys: b
         let strategy = match strategy_name {
             "NoSD" => Strategy::NoSD,
             "TopLevel" => Strategy::TopLevel,
+            "CustomParents" => Strategy::Custom(vec!["$.hid[0]".into(), "$.hid[1]".into(), "$.o".into(), "$.same_a".into()]),
             _ => Strategy::AllLevels,
         };
         let claims = if kind == "empty_objects" {
@@ -98,6 +109,18 @@ fn worker(t: usize, per_thread: usize, reuse: bool, same_claims: bool, decoys: b
         } else if let Some(n) = kind.strip_prefix("records").and_then(|n| n.parse::<usize>().ok()) {
             let records: Vec<J> = (0..n / 2).map(|r| json!({"id": r, "d": {"v": if same_claims { 0 } else { i }}})).collect();
             json!({"iss": "i", "exp": FAR_EXP, "records": records})
+        } else if kind == "repeated_equal" {
+            // the same container twice in a row / as siblings, at depth 1 and 2, under visible and hidden parents
+            json!({
+        "iss": "i", "exp": FAR_EXP,
+        "twins": [{"k": 1}, {"k": 1}, {"k": 2}, {"k": 2}, {"k": 2}],
+        "rows": [[1, {"a": 1}], [1, {"a": 1}]],
+        "o": {"left": {"x": {"y": 1}}, "right": {"x": {"y": 1}}, "pair": [{"z": {}}, {"z": {}}]},
+        "hid": [{"in": [{"q": 1}, {"q": 1}]}, {"in": [{"q": 1}, {"q": 1}]}],
+        "empty": [{}, {}, [], []],
+        "deep": [[[{"d": 1}], [{"d": 1}]], [[{"d": 1}], [{"d": 1}]]],
+        "same_a": {"s": {"t": [1]}}, "same_b": {"s": {"t": [1]}}
+    })
         } else if kind == "unicode_names" {
             json!({"iss": "i", "exp": FAR_EXP, "gr\u{f6}\u{df}e": 180, "\u{4f4f}\u{6240}": {"\u{1F600}": "v", "stra\u{df}e": ["\u{e9}"]}, "plain": {"\u{10FFFF}k": i}})
         } else if kind == "nested_objects" {
